@@ -1,6 +1,7 @@
 //! F flavour ("faults"): real threads; the simulator owns the stored bytes, the output I/O
 //! points, process death and pack availability.
 
+mod c07f;
 mod c09;
 mod c11;
 mod c12;
@@ -200,6 +201,14 @@ fn main() {
             }
         }
         "child-c09" => c09::child_main(&args),
+        "c07f" => {
+            if let Some(f) = args.replay.clone() {
+                c07f::replay_main(&args, &f)
+            } else {
+                c07f::parent_main(&args)
+            }
+        }
+        "child-c07f" => c07f::child_main(&args),
         "c12" => {
             if let Some(f) = args.replay.clone() {
                 c12::replay_main(&args, &f)
